@@ -29,7 +29,7 @@ def main():
     a = ap.parse_args()
     old = {r["id"]: r for r in json.load(open(os.path.join(ROOT, "results.json")))}
     first = {}
-    for f in ("round3_first_run.jsonl", "round4_first_run.jsonl", "round5_first_run.jsonl", "round6_first_run.jsonl"):
+    for f in ("round3_first_run.jsonl", "round4_first_run.jsonl", "round5_first_run.jsonl", "round6_first_run.jsonl", "round7_first_run.jsonl"):
         first.update(jl(os.path.join(ROOT, f)))
     latest_path = os.path.join(ROOT, "latest_sweep.jsonl")
     latest = jl(latest_path)
